@@ -607,7 +607,10 @@ class t2listing(object):
             nextpt = line.find('.', pt + 1)
             if nextpt < 0 : nextpt = len(line)
             s = line[pt + 1: nextpt - 1].lower()
-            exponential = s.find('e') >= 0 or s.find('+') >= 0 or s.find('-') >= 0
+            # exponent (possibly without the 'e') directly after the decimals- a
+            # sign further on belongs to the next value:
+            from re import match
+            exponential = match('[0-9]*[ed+-]', s) is not None
             if exponential:
                 c = line[pt - 2]
                 if c in ['-',' ']: start = pt - 2
